@@ -20,6 +20,7 @@ type Case struct {
 	Type         byte   `json:"type"`          // message type byte
 	Pos          string `json:"pos"`           // first | between | in-batch | during-copy | password | startup
 	Segs         []int  `json:"segs,omitempty"`
+	TLS          bool   `json:"tls,omitempty"` // the session runs inside TLS (the limit applies to the messages, not to the transport)
 }
 
 const defaultLimit = 1 << 24
@@ -100,11 +101,25 @@ func (c Case) session(limitSetting int) sessOut {
 	if c.Pos == "password" {
 		cfg.Auth = &script.AuthSpec{User: "u", Pass: string(bytes.TrimSuffix(sized('p', c.Size)[5:], []byte{0}))}
 	}
+	if c.TLS {
+		cfg.TLS = "cert"
+	}
 	env := script.Start(cfg)
 	defer env.Stop()
-	s := env.NewSess()
-	if c.Segs != nil {
-		s.C.SetSegments(c.Segs, true)
+	var s interface{ Send([]byte) script.Step }
+	if c.TLS {
+		ts, err := env.NewTLSSess()
+		if err != nil {
+			o.inc = "TLS negotiation: " + err.Error()
+			return o
+		}
+		s = ts
+	} else {
+		ps := env.NewSess()
+		if c.Segs != nil {
+			ps.C.SetSegments(c.Segs, true)
+		}
+		s = ps
 	}
 	do := func(label string, b []byte) bool {
 		st := s.Send(b)
@@ -198,6 +213,9 @@ func Run(c Case) core.Result {
 	L := c.limit()
 	res := core.Result{}
 	res.Labels = append(res.Labels, "pos="+c.Pos, "type="+string(rune(c.Type)))
+	if c.TLS {
+		res.Labels = append(res.Labels, "inside-tls")
+	}
 	d := c.Size - L
 	switch {
 	case d == 0:
@@ -260,7 +278,7 @@ func Run(c Case) core.Result {
 	}
 	if c.Size <= L {
 		// differential: identical to a server whose limit is far above every size of the case
-		ref := c.session(refLimit)
+		ref := c.session(refLimit) // (same transport: plaintext or TLS)
 		if ref.inc != "" {
 			res.Inconclusive = ref.inc
 			return res
